@@ -23,6 +23,7 @@ schedule that somebody supplies.  This file shows that such schedules exist and 
 -/
 import Compass.Proofs.SearchDiscipline
 import Compass.Proofs.ConfigProgress
+import Compass.Proofs.ConfigAdmissible
 
 namespace Compass
 namespace SearchTermination
@@ -675,6 +676,474 @@ theorem runVertexOriented_error_origin {I : Inst α} (hI : WF I) {source : Nat}
       | some t => exact Or.inr (Or.inr (Or.inr (Or.inr (Or.inr (Or.inr ⟨_, _, hk⟩)))))
     · rename_i f0 _
       exact runLoop_error_origin hI sched _ (SearchTree.initState_treeInv I source f0) hra
+
+/-! ### Configured instances (`Config.inst`, `Config.runVertex`) -/
+
+/-- the error kinds of the component models of a configuration (graph, frontier, access, cost,
+traversal) -/
+def ModelErr (k : ErrKind) : Prop :=
+  k = .network ∨ k = .frontier ∨ k = .access ∨ k = .cost ∨ k = .traversal
+
+theorem ModelErr.final {k : ErrKind} (h : ModelErr k) : k ≠ .scheduleExhausted ∧ k ≠ .badSchedule := by
+  rcases h with h | h | h | h | h <;> subst h <;> exact ⟨by simp, by simp⟩
+
+theorem frontierValid_error {e : Nat} {le : Option Nat} {k : ErrKind} :
+    ∀ (fs : List (FrontierM α)), frontierValid fs e le = .error k → k = .frontier
+  | [], h => by simp [frontierValid] at h
+  | m :: ms, h => by
+    simp only [frontierValid] at h
+    split at h
+    · cases h; rfl
+    · cases h
+    · exact frontierValid_error ms h
+
+theorem config_valid_error (c : Config α) {e : Nat} {st : List α} {le : Option Nat} {k : ErrKind}
+    (h : c.inst.valid e st le = .error k) : ModelErr k := by
+  simp only [Config.inst] at h
+  split at h
+  · cases h; exact Or.inl rfl
+  · exact Or.inr (Or.inl (frontierValid_error _ h))
+
+theorem config_trav_error (c : Config α) {e : Nat} {le : Option Nat} {st : List α} {k : ErrKind}
+    (h : c.inst.trav e le st = .error k) : ModelErr k := by
+  simp only [Config.inst, edgeTraversal] at h
+  split at h
+  · cases h; exact Or.inl rfl
+  · split at h
+    · rename_i k' hk
+      cases h
+      unfold edgeAccess at hk
+      split at hk
+      · cases hk
+      · split at hk
+        · cases hk; exact Or.inl rfl
+        · simp only at hk
+          split at hk
+          · cases hk; exact Or.inr (Or.inr (Or.inl rfl))
+          · split at hk
+            · cases hk; exact Or.inr (Or.inr (Or.inr (Or.inl rfl)))
+            · cases hk
+    · split at h
+      · cases h; exact Or.inr (Or.inr (Or.inr (Or.inr rfl)))
+      · split at h
+        · cases h; exact Or.inr (Or.inr (Or.inr (Or.inl rfl)))
+        · cases h
+
+theorem config_h_error (c : Config α) {v : Nat} {st : List α} {k : ErrKind}
+    (h : c.inst.h v st = .error k) : ModelErr k := by
+  simp only [Config.inst, estimate] at h
+  split at h
+  · cases h; exact Or.inl rfl
+  · split at h
+    · cases h; exact Or.inr (Or.inr (Or.inr (Or.inr rfl)))
+    · split at h
+      · cases h; exact Or.inr (Or.inr (Or.inr (Or.inl rfl)))
+      · cases h
+
+theorem config_term_error (c : Config α) {sz it : Nat} {k : ErrKind}
+    (h : c.inst.term sz it = .error k) :
+    (∃ ks, k = .terminated ks) ∨ k = .panic "termination-frequency-zero" := by
+  have h' : c.term.test sz it = .error k := h
+  rcases SearchLimits.terminated_is_explicit c.term sz it with h1 | ⟨ks, h1, _⟩ | h1
+  · rw [h1.1] at h'; cases h'
+  · rw [h1] at h'; cases h'; exact Or.inl ⟨ks, rfl⟩
+  · rw [h1.1] at h'; cases h'; exact Or.inr rfl
+
+/-- no component of a configured instance answers with an error of the schedule replay -/
+theorem config_noSchedErr (c : Config α) : NoSchedErr c.inst where
+  valid := by
+    intro e st le
+    cases h : c.inst.valid e st le with
+    | ok b => trivial
+    | error k => exact (config_valid_error c h).final
+  trav := by
+    intro e le st
+    cases h : c.inst.trav e le st with
+    | ok b => trivial
+    | error k => exact (config_trav_error c h).final
+  h := by
+    intro v st
+    cases h : c.inst.h v st with
+    | ok b => trivial
+    | error k => exact (config_h_error c h).final
+  term := by
+    intro sz it
+    cases h : c.inst.term sz it with
+    | ok b => trivial
+    | error k =>
+      rcases config_term_error c h with ⟨ks, rfl⟩ | rfl <;> exact ⟨by simp, by simp⟩
+
+/-- how a search of the code ends: a result, "no path", the explicit termination by a limit (or the
+`iteration % 0` panic of a zero check frequency), or the error of a component model.  What is
+excluded: the two replay errors of the model and the "cannot happen" errors of the loop and of the
+backtrack -/
+def Ended {β : Type} (r : Except ErrKind β) : Prop :=
+  (∃ x, r = .ok x) ∨ r = .error .noPath ∨ (∃ ks, r = .error (.terminated ks)) ∨
+  r = .error (.panic "termination-frequency-zero") ∨ ∃ k, ModelErr k ∧ r = .error k
+
+theorem Ended.isFinal {β : Type} {r : Except ErrKind β} (h : Ended r) : IsFinal r := by
+  rcases h with ⟨x, rfl⟩ | rfl | ⟨ks, rfl⟩ | rfl | ⟨k, hk, rfl⟩
+  · trivial
+  · exact ⟨by simp, by simp⟩
+  · exact ⟨by simp, by simp⟩
+  · exact ⟨by simp, by simp⟩
+  · exact hk.final
+
+theorem runVertex_error_iff (c : Config α) (source : Nat) (target : Option Nat) (sched : List Nat)
+    (k : ErrKind) :
+    c.runVertex source target sched = .error k ↔
+      runVertexOriented c.inst source target sched = .error k := by
+  unfold Config.runVertex
+  cases runVertexOriented c.inst source target sched <;> simp
+
+theorem runVertex_isFinal_iff (c : Config α) (source : Nat) (target : Option Nat)
+    (sched : List Nat) :
+    IsFinal (c.runVertex source target sched) ↔
+      IsFinal (runVertexOriented c.inst source target sched) := by
+  rw [isFinal_iff, isFinal_iff, Ne, Ne, Ne, Ne, runVertex_error_iff, runVertex_error_iff]
+
+/-- **on a configuration with consistent adjacency, a final outcome is one of the ways the code
+ends** (and conversely): the only other outcomes of the model are the two replay errors -/
+theorem config_final_iff_ended (c : Config α) (hadj : c.AdjConsistent) (source : Nat)
+    (target : Option Nat) (sched : List Nat) :
+    IsFinal (c.runVertex source target sched) ↔ Ended (c.runVertex source target sched) := by
+  refine ⟨fun hfin => ?_, Ended.isFinal⟩
+  cases hr : c.runVertex source target sched with
+  | ok r => exact Or.inl ⟨r, rfl⟩
+  | error k =>
+    rw [hr] at hfin
+    have h' := (runVertex_error_iff c source target sched k).1 hr
+    rcases runVertexOriented_error_origin (c.inst_wf hadj) h' with
+      rfl | rfl | rfl | ⟨sz, it, h⟩ | ⟨e, st, le, h⟩ | ⟨e, le, st, h⟩ | ⟨v, st, h⟩
+    · exact Or.inr (Or.inl rfl)
+    · exact absurd rfl hfin.1
+    · exact absurd rfl hfin.2
+    · rcases config_term_error c h with ⟨ks, rfl⟩ | rfl
+      · exact Or.inr (Or.inr (Or.inl ⟨ks, rfl⟩))
+      · exact Or.inr (Or.inr (Or.inr (Or.inl rfl)))
+    · exact Or.inr (Or.inr (Or.inr (Or.inr ⟨k, config_valid_error c h, rfl⟩)))
+    · exact Or.inr (Or.inr (Or.inr (Or.inr ⟨k, config_trav_error c h, rfl⟩)))
+    · exact Or.inr (Or.inr (Or.inr (Or.inr ⟨k, config_h_error c h, rfl⟩)))
+
+/-- every end point of every edge is a vertex id below `n` (what the graph loader guarantees, C15) -/
+def _root_.Compass.Config.VerticesBelow (c : Config α) (n : Nat) : Prop :=
+  ∀ er ∈ c.edges, er.src < n ∧ er.dst < n
+
+theorem config_keyV_lt (c : Config α) {n : Nat} (hV : c.VerticesBelow n) (hn : 0 < n) (e : Nat) :
+    c.inst.keyV e < n := by
+  simp only [Config.inst]
+  cases he : c.edges[e]? with
+  | none => exact hn
+  | some er =>
+    have := hV er (List.mem_of_getElem? he)
+    simp only
+    split
+    · exact this.1
+    · exact this.2
+
+/-- **termination of a configured search under the discipline** (`H` a consistent vertex estimate):
+any traversal, access (turn delays), cost, frontier (turn restrictions) and termination models,
+forward or reverse, with or without destination.  Over the vertices `< n`: (1) some schedule of at
+most `n + 1` pops ends the way the code ends; (2) every accepted, unfinished schedule has at most
+`n` pops and extends to one of at most `n + 1` pops that ends the way the code ends; (3) a returned
+result performed at most `n` expansions -/
+theorem config_terminates_of_heur (c : Config α) (hadj : c.AdjConsistent) {H : Nat → α}
+    {source n : Nat} (hsrc : source < n) (hV : c.VerticesBelow n) {target : Option Nat}
+    (hH : Heur c.inst target.isSome H) :
+    (∃ sched, sched.length ≤ n + 1 ∧ Ended (c.runVertex source target sched)) ∧
+    (∀ pre, c.runVertex source target pre = .error .scheduleExhausted →
+      pre.length ≤ n ∧ ∃ ext, (pre ++ ext).length ≤ n + 1 ∧
+        Ended (c.runVertex source target (pre ++ ext))) ∧
+    ∀ sched r, c.runVertex source target sched = .ok r → r.iterations ≤ n := by
+  have hI := c.inst_wf hadj
+  have hkey := config_keyV_lt c hV (Nat.lt_of_le_of_lt (Nat.zero_le _) hsrc)
+  obtain ⟨⟨sched, h1, h2⟩, h3⟩ :=
+    route_search_terminates_of_heur hI (config_noSchedErr c) hsrc hkey hH
+  refine ⟨⟨sched, h1, ?_⟩, ?_, ?_⟩
+  · exact (config_final_iff_ended c hadj _ _ _).1 ((runVertex_isFinal_iff c _ _ _).2 h2)
+  · intro pre hpre
+    obtain ⟨h4, ext, h5, h6⟩ := h3 pre ((runVertex_error_iff c _ _ _ _).1 hpre)
+    exact ⟨h4, ext, h5,
+      (config_final_iff_ended c hadj _ _ _).1 ((runVertex_isFinal_iff c _ _ _).2 h6)⟩
+  · intro sched r hr
+    unfold Config.runVertex at hr
+    split at hr
+    · cases hr
+    · rename_i res hres
+      cases hr
+      simp only
+      unfold runVertexOriented at hres
+      split at hres
+      · cases hres
+      · rename_i s hs
+        have hit := SearchDiscipline.expansions_le_vertices_of_heur hI hsrc hkey hH hs
+        cases target with
+        | none => cases hres; exact hit
+        | some t =>
+          simp only at hres
+          split at hres
+          · cases hres
+          · cases hres; exact hit
+
+/-- **termination of a configured Dijkstra search** (`weight_factor = 0`) -/
+theorem config_dijkstra_terminates (c : Config α) (hadj : c.AdjConsistent) (hwf : c.wf = some 0)
+    {source n : Nat} (hsrc : source < n) (hV : c.VerticesBelow n) (target : Option Nat) :
+    (∃ sched, sched.length ≤ n + 1 ∧ Ended (c.runVertex source target sched)) ∧
+    (∀ pre, c.runVertex source target pre = .error .scheduleExhausted →
+      pre.length ≤ n ∧ ∃ ext, (pre ++ ext).length ≤ n + 1 ∧
+        Ended (c.runVertex source target (pre ++ ext))) ∧
+    ∀ sched r, c.runVertex source target sched = .ok r → r.iterations ≤ n :=
+  config_terminates_of_heur c hadj hsrc hV
+    ((SearchDiscipline.config_zeroH c hwf).heur (c.inst_wf hadj) _)
+
+/-- a destination-less search adds `Cost::ZERO` as estimate whatever the weight factor: it always
+runs under the discipline -/
+theorem config_tree_search_terminates (c : Config α) (hadj : c.AdjConsistent)
+    {source n : Nat} (hsrc : source < n) (hV : c.VerticesBelow n) :
+    (∃ sched, sched.length ≤ n + 1 ∧ Ended (c.runVertex source none sched)) ∧
+    (∀ pre, c.runVertex source none pre = .error .scheduleExhausted →
+      pre.length ≤ n ∧ ∃ ext, (pre ++ ext).length ≤ n + 1 ∧
+        Ended (c.runVertex source none (pre ++ ext))) ∧
+    ∀ sched r, c.runVertex source none sched = .ok r → r.iterations ≤ n := by
+  have hI := c.inst_wf hadj
+  have hH : Heur c.inst (none : Option Nat).isSome (fun _ => 0) := by
+    refine ⟨fun v st x h => ?_, fun e le st ac tc st' _ h2 => ?_⟩
+    · simp only [Option.isSome_none, Bool.false_eq_true, if_false, Except.ok.injEq, zero_eq] at h
+      exact h.symm
+    · have := hI.cost_pos _ _ _ _ _ _ h2
+      simp only [add_zero]
+      exact le_of_lt this
+  exact config_terminates_of_heur c hadj hsrc hV hH
+
+/-! ### A\* with the configuration's own estimate, when it is consistent -/
+
+/-- in an edge-local configuration the estimate is the vertex function `hOf`; if it is consistent on
+every permitted edge the search runs under the discipline -/
+theorem config_heur_of_consistent (c : Config α) (h : c.EdgeLocal)
+    (hcons : ∀ e, c.okOf e = true →
+      c.hOf (c.inst.termV e) ≤ c.costOf e + c.hOf (c.inst.keyV e)) (hasT : Bool) :
+    Heur c.inst hasT (SearchOpt.Hf hasT c.hOf) := by
+  have U := c.uniformCostOn h
+  refine Heur.of_vertex (c.inst_wf h.adj) (fun v st x hx => estimate_eq c v st x hx) ?_ hasT
+  intro e le st ac tc st' hv ht
+  have hok : true = c.okOf e := U.valid_eq e le st true trivial hv
+  rw [(U.trav_eq e le st ac tc st' trivial hv ht).1]
+  exact hcons e hok.symm
+
+/-- `Config.estimate_consistent_of_scale` for every edge id (not only the listed ones) -/
+theorem estimate_consistent_all (c : Config α) (κ : α)
+    (hκ : 0 ≤ κ) (hwf0 : 0 ≤ c.wfOf) (hwf1 : c.wfOf ≤ 1)
+    (hh : ∀ v, c.hOf v = κ * c.gcOf v * c.wfOf)
+    (hc : ∀ (e : Nat) (er : EdgeRec α), c.edges[e]? = some er → κ * er.dist ≤ c.costOf e)
+    (hlen : ∀ (e : Nat) (er : EdgeRec α), c.edges[e]? = some er → 0 ≤ er.dist)
+    (htri : ∀ (e : Nat) (er : EdgeRec α), c.edges[e]? = some er → c.okOf e = true →
+      c.gcOf (c.inst.termV e) ≤ er.dist + c.gcOf (c.inst.keyV e)) :
+    ∀ e, c.okOf e = true → c.hOf (c.inst.termV e) ≤ c.costOf e + c.hOf (c.inst.keyV e) := by
+  intro e hok
+  cases hed : c.edges[e]? with
+  | none =>
+    have hk : c.inst.keyV e = 0 := by simp [Config.inst, hed]
+    have ht0 : c.inst.termV e = 0 := by simp [Config.inst, hed]
+    rw [hk, ht0]
+    have := c.costOf_pos e
+    linarith
+  | some er =>
+    have hce := hc e er hed
+    have ht := htri e er hed hok
+    rw [hh (c.inst.termV e), hh (c.inst.keyV e)]
+    have hl := hlen e er hed
+    have h1 : κ * c.gcOf (c.inst.termV e) ≤ κ * (er.dist + c.gcOf (c.inst.keyV e)) :=
+      mul_le_mul_of_nonneg_left ht hκ
+    have h2 : κ * c.gcOf (c.inst.termV e) * c.wfOf
+        ≤ κ * (er.dist + c.gcOf (c.inst.keyV e)) * c.wfOf :=
+      mul_le_mul_of_nonneg_right h1 hwf0
+    have h3 : κ * er.dist * c.wfOf ≤ κ * er.dist :=
+      mul_le_of_le_one_right (mul_nonneg hκ hl) hwf1
+    nlinarith [h2, h3, hce]
+
+/-- **termination of A\* with the distance estimate** on a metrically consistent great-circle table
+(`Config.DistanceMetric`: the premises of C02's `estimate_admissible`, weight factor in `[0, 1]`) -/
+theorem config_astar_distance_terminates (c : Config α) (h : c.EdgeLocal) {du : DistanceUnit}
+    {t : Nat} (M : c.DistanceMetric du t) {source n : Nat} (hsrc : source < n)
+    (hV : c.VerticesBelow n) :
+    (∃ sched, sched.length ≤ n + 1 ∧ Ended (c.runVertex source (some t) sched)) ∧
+    (∀ pre, c.runVertex source (some t) pre = .error .scheduleExhausted →
+      pre.length ≤ n ∧ ∃ ext, (pre ++ ext).length ≤ n + 1 ∧
+        Ended (c.runVertex source (some t) (pre ++ ext))) ∧
+    ∀ sched r, c.runVertex source (some t) sched = .ok r → r.iterations ≤ n := by
+  have hK := c.distK_nonneg M.nonneg du
+  have hcons := estimate_consistent_all c (c.distK du) hK M.wf_nonneg M.wf_le_one
+    (fun v => by
+      rw [c.hOf_distance M.agg M.linear M.trav, max_eq_left (mul_nonneg hK (M.gc_nonneg v))])
+    (fun e er he => c.costOf_distance_ge M.agg M.linear M.nonneg M.surcharge M.trav he)
+    M.len_nonneg M.triangle
+  exact config_terminates_of_heur c h.adj hsrc hV (config_heur_of_consistent c h hcons _)
+
+/-- **termination of A\* with the speed-table estimate** (`Config.SpeedMetric`) -/
+theorem config_astar_speed_terminates (c : Config α) (h : c.EdgeLocal)
+    {su : SpeedUnit} {du : DistanceUnit} {tu : TimeUnit} {ms : α} {table : List α} {t : Nat}
+    (M : c.SpeedMetric su du tu ms table t) {source n : Nat} (hsrc : source < n)
+    (hV : c.VerticesBelow n) :
+    (∃ sched, sched.length ≤ n + 1 ∧ Ended (c.runVertex source (some t) sched)) ∧
+    (∀ pre, c.runVertex source (some t) pre = .error .scheduleExhausted →
+      pre.length ≤ n ∧ ∃ ext, (pre ++ ext).length ≤ n + 1 ∧
+        Ended (c.runVertex source (some t) (pre ++ ext))) ∧
+    ∀ sched r, c.runVertex source (some t) sched = .ok r → r.iterations ≤ n := by
+  have hκ : 0 ≤ c.distK du + c.timeK su du tu / ms :=
+    add_nonneg (c.distK_nonneg M.nonneg du)
+      (div_nonneg (c.timeK_nonneg M.nonneg su du tu) (le_of_lt M.ms_pos))
+  have hcons := estimate_consistent_all c _ hκ M.wf_nonneg M.wf_le_one (c.hOf_speed M)
+    (fun e er he => c.costOf_speed_ge M he) (fun e er he => le_of_lt (M.edge e er he).1)
+    M.triangle
+  exact config_terminates_of_heur c h.adj hsrc hV (config_heur_of_consistent c h hcons _)
+
+/-! ### What C05 needs: a deciding schedule exists
+
+On a well-formed configuration (`Config.WellFormedDistance`, `Config.GraphOK`: no call of a component
+fails) without a limit that fires, a final outcome is a result or "no path"; together with C05's
+`config_nopath_iff_unreachable` (any weight factor) the outcome is a result exactly when the
+destination is reachable. -/
+
+theorem edgeLocal_of_wellFormed (c : Config α) {du : DistanceUnit} (W : c.WellFormedDistance du)
+    {source : Nat} {hasT : Bool} (G : c.GraphOK source hasT) : c.EdgeLocal :=
+  ⟨G.adj, W.noAccess, W.noTurn⟩
+
+/-- on a well-formed configuration whose limits never fire, a final outcome is a result or
+"no path" -/
+theorem config_final_result_or_nopath (c : Config α) {du : DistanceUnit}
+    (W : c.WellFormedDistance du) {source : Nat} {target : Option Nat}
+    (G : c.GraphOK source target.isSome) (hlim : ∀ sz it, c.term.test sz it = .ok ())
+    {sched : List Nat} (hfin : IsFinal (c.runVertex source target sched)) :
+    (∃ r, c.runVertex source target sched = .ok r) ∨
+      c.runVertex source target sched = .error .noPath := by
+  cases hr : c.runVertex source target sched with
+  | ok r => exact Or.inl ⟨r, rfl⟩
+  | error k =>
+    right
+    rw [hr] at hfin
+    have hben := config_run_benign c W G sched k hr
+    have h' := (runVertex_error_iff c source target sched k).1 hr
+    have hmodel : ModelErr k → False := by
+      intro hm
+      rcases hben with rfl | ⟨ks, rfl⟩ | rfl | rfl | rfl <;>
+        rcases hm with hm | hm | hm | hm | hm <;> cases hm
+    rcases runVertexOriented_error_origin (c.inst_wf G.adj) h' with
+      rfl | rfl | rfl | ⟨sz, it, h⟩ | ⟨e, st, le, h⟩ | ⟨e, le, st, h⟩ | ⟨v, st, h⟩
+    · rfl
+    · exact absurd rfl hfin.1
+    · exact absurd rfl hfin.2
+    · have h2 : c.term.test sz it = .error k := h
+      rw [hlim] at h2; cases h2
+    · exact absurd (config_valid_error c h) hmodel
+    · exact absurd (config_trav_error c h) hmodel
+    · exact absurd (config_h_error c h) hmodel
+
+/-- **whatever schedule the implementation takes**: on a well-formed configuration without a firing
+limit, a run to a destination that ends, ends in a route or in "no path", and in a route exactly
+when the destination is reachable through permitted edges (any weight factor) -/
+theorem config_final_decides (c : Config α) {du : DistanceUnit} (W : c.WellFormedDistance du)
+    {source t : Nat} (G : c.GraphOK source true) (hlim : ∀ sz it, c.term.test sz it = .ok ())
+    {sched : List Nat} (hfin : IsFinal (c.runVertex source (some t) sched)) :
+    ((∃ r, c.runVertex source (some t) sched = .ok r) ∨
+      c.runVertex source (some t) sched = .error .noPath) ∧
+    ((∃ r, c.runVertex source (some t) sched = .ok r) ↔
+      ∃ es, SearchOpt.Walk c.inst c.okOf source es t) ∧
+    (c.runVertex source (some t) sched = .error .noPath ↔
+      ¬ ∃ es, SearchOpt.Walk c.inst c.okOf source es t) := by
+  have hres := config_final_result_or_nopath c W (target := some t) G hlim hfin
+  have := config_nopath_iff_unreachable c (edgeLocal_of_wellFormed c W G) hres
+  exact ⟨hres, this.2, this.1⟩
+
+/-- **a deciding schedule exists** (Dijkstra): on a well-formed configuration over the vertices
+`< n` without a firing limit there is a schedule of at most `n + 1` pops on which the search returns
+a route or "no path" — a route exactly when the destination is reachable —, and every accepted,
+unfinished schedule extends to such a one -/
+theorem config_dijkstra_decides (c : Config α) {du : DistanceUnit} (W : c.WellFormedDistance du)
+    {source t : Nat} (G : c.GraphOK source true) (hwf : c.wf = some 0)
+    (hlim : ∀ sz it, c.term.test sz it = .ok ()) {n : Nat} (hsrc : source < n)
+    (hV : c.VerticesBelow n) :
+    (∃ sched, sched.length ≤ n + 1 ∧
+      ((∃ r, c.runVertex source (some t) sched = .ok r) ∨
+        c.runVertex source (some t) sched = .error .noPath) ∧
+      ((∃ r, c.runVertex source (some t) sched = .ok r) ↔
+        ∃ es, SearchOpt.Walk c.inst c.okOf source es t)) ∧
+    ∀ pre, c.runVertex source (some t) pre = .error .scheduleExhausted →
+      pre.length ≤ n ∧ ∃ ext, (pre ++ ext).length ≤ n + 1 ∧
+        ((∃ r, c.runVertex source (some t) (pre ++ ext) = .ok r) ∨
+          c.runVertex source (some t) (pre ++ ext) = .error .noPath) ∧
+        ((∃ r, c.runVertex source (some t) (pre ++ ext) = .ok r) ↔
+          ∃ es, SearchOpt.Walk c.inst c.okOf source es t) := by
+  obtain ⟨⟨sched, h1, h2⟩, h3, _⟩ := config_dijkstra_terminates c G.adj hwf hsrc hV (some t)
+  refine ⟨⟨sched, h1, ?_⟩, ?_⟩
+  · obtain ⟨a, b, _⟩ := config_final_decides c W G hlim h2.isFinal
+    exact ⟨a, b⟩
+  · intro pre hpre
+    obtain ⟨h4, ext, h5, h6⟩ := h3 pre hpre
+    obtain ⟨a, b, _⟩ := config_final_decides c W G hlim h6.isFinal
+    exact ⟨h4, ext, h5, a, b⟩
+
+/-- without a destination the loop never answers "no path" (when no component does) -/
+theorem runLoop_none_ne_noPath {I : Inst α} (hyg : SearchOpt.NoSpuriousNoPath I) {source : Nat} :
+    ∀ (sched : List Nat) (s : SState α), runLoop I source none sched s ≠ .error .noPath := by
+  intro sched
+  induction sched with
+  | nil =>
+    intro s hrun
+    rw [runLoop_unfold] at hrun
+    split at hrun
+    · rename_i k hk; cases hrun; exact hyg.term _ _ hk
+    · split at hrun <;> cases hrun
+  | cons v rest ih =>
+    intro s hrun
+    rw [runLoop_unfold] at hrun
+    split at hrun
+    · rename_i k hk; cases hrun; exact hyg.term _ _ hk
+    · split at hrun
+      · cases hrun
+      · simp only at hrun
+        split at hrun
+        · cases hrun
+        · split at hrun
+          · cases hrun
+          · split at hrun
+            · cases hrun
+            · split at hrun
+              · rename_i k hk
+                cases hrun
+                exact SearchOpt.relaxAll_not_noPath hyg _ _ _ _ _ hk
+              · exact ih _ hrun
+
+/-- **destination-less search**: on a well-formed configuration over the vertices `< n` without a
+firing limit (any weight factor) there is a schedule of at most `n + 1` pops on which the search
+returns its tree, and every accepted, unfinished schedule extends to such a one -/
+theorem config_tree_search_returns (c : Config α) {du : DistanceUnit} (W : c.WellFormedDistance du)
+    {source : Nat} (G : c.GraphOK source false) (hlim : ∀ sz it, c.term.test sz it = .ok ())
+    {n : Nat} (hsrc : source < n) (hV : c.VerticesBelow n) :
+    (∃ sched r, sched.length ≤ n + 1 ∧ c.runVertex source none sched = .ok r) ∧
+    ∀ pre, c.runVertex source none pre = .error .scheduleExhausted →
+      pre.length ≤ n ∧ ∃ ext r, (pre ++ ext).length ≤ n + 1 ∧
+        c.runVertex source none (pre ++ ext) = .ok r := by
+  have hnp : ∀ sched, c.runVertex source none sched ≠ .error .noPath := by
+    intro sched h
+    have h' := (runVertex_error_iff c source none sched _).1 h
+    unfold runVertexOriented at h'
+    split at h'
+    · rename_i k hk
+      cases h'
+      rw [runAStar_unfold] at hk
+      simp only [reduceCtorEq, if_false, startF] at hk
+      exact runLoop_none_ne_noPath c.noSpuriousNoPath _ _ hk
+    · cases h'
+  obtain ⟨⟨sched, h1, h2⟩, h3, _⟩ := config_tree_search_terminates c G.adj hsrc hV
+  refine ⟨?_, ?_⟩
+  · rcases config_final_result_or_nopath c W (target := none) G hlim h2.isFinal with ⟨r, hr⟩ | hr
+    · exact ⟨sched, r, h1, hr⟩
+    · exact absurd hr (hnp _)
+  · intro pre hpre
+    obtain ⟨h4, ext, h5, h6⟩ := h3 pre hpre
+    rcases config_final_result_or_nopath c W (target := none) G hlim h6.isFinal with ⟨r, hr⟩ | hr
+    · exact ⟨h4, ext, r, h5, hr⟩
+    · exact absurd hr (hnp _)
 
 end SearchTermination
 end Compass
